@@ -275,6 +275,7 @@ def conf_line(case):
 
 class C02(Prop):
     id = "C02"
+    case_watchdog = None          # this property manages time itself (per-string alarms / schedule exploration)
     model = "poolconc"
     rule = ("configurations: maxsize in {1,2} x (block=False | block=True without pool_timeout | block=True with "
             "pool_timeout) x 2-3 request threads each doing 1-2 requests (preloaded or streamed+released, scripts "
